@@ -170,6 +170,34 @@ def run(ctx, rep):
     # ---------------- R5 explain_matching: year boundary + lookup key
     import rules.c07 as c07
     c07.year_sites(F, rep, rule="R5", only_crate="cgt_mcp")
+    # "for a non-empty ledger, equals what the CLI computes": between reading the ledger and calling the calculation the server may
+    # refuse only an EMPTY ledger; any other refusal (no BUY/SELL line, …) is an answer the CLI does not give (seeded change C20-s6)
+    from roles import guards_of as _guards_of
+    n_pre = 0
+    for b in F.bodies.values():
+        if b.crate != "cgt_mcp" or not P.user_written(F, b) or b.kind not in ("fn", "method"):
+            continue
+        calcs = [(i, t) for i, t in b.calls() if t["callee"].endswith("calculator::calculate")]
+        if not calcs:
+            continue
+        tb0 = Terms(F, b, inline_depth=1)
+        for ci, ct in calcs:
+            n_pre += 1
+            extra = []
+            for cond, val, where in _guards_of(b, tb0, ci):
+                txt = show(cond)
+                if isinstance(cond, tuple) and cond and cond[0] == "discr" and "branch(" in txt:
+                    continue
+                if isinstance(cond, tuple) and cond and cond[0] == "call" and parse_callee(cond[1])[2] == "is_empty":
+                    continue
+                if isinstance(cond, tuple) and cond and cond[0] in ("un", "not") and "is_empty(" in txt and "any(" not in txt:
+                    continue
+                extra.append(txt[:80])
+            rep.ob("R4", f"{b.short}:only-empty-refused", not extra, "before the calculation only an empty ledger is refused" if not extra else
+                   f"the calculation is reached only under {extra[:2]}: a non-empty ledger the CLI reports on is refused by the server",
+                   b.loc(ct["sp"]), key=f"R4:{b.short}:pre-calculation-refusal")
+    if n_pre < 1:
+        rep.unresolved("R4", "mcp-calculate", "no call of calculate() in the MCP crate")
     # the explaining tool computes the report of the tax year that contains the requested date: restricted to that year the
     # calculation needs only that year's exemption, so every disposal calculate_report can list can be explained; an all-years
     # calculation (year = None) fails for reasons that have nothing to do with the requested disposal (seeded change C20-s5)
